@@ -837,6 +837,11 @@ func (g *apiGen) doc(withID bool) bson.D {
 		d = append(d, bson.E{Key: "_id", Value: id})
 	}
 	for _, k := range []string{"a", "b", "c"} {
+		if k == g.uniqField && g.r.chance(1, 2) {
+			// small integer keys under the unique index: neighbours collide when shifted
+			d = append(d, bson.E{Key: k, Value: int32(g.r.intn(6) + 1)})
+			continue
+		}
 		if g.r.chance(3, 5) {
 			d = append(d, bson.E{Key: k, Value: g.fieldVal()})
 		}
@@ -1113,7 +1118,7 @@ func (g *apiGen) call() string {
 	if readOnly {
 		k = 60 + r.intn(20)
 	}
-	if g.uniqField != "" && !readOnly && r.chance(1, 30) {
+	if g.uniqField != "" && !readOnly && r.chance(1, 20) {
 		// shift all numeric keys under the unique index by one: accepted iff the
 		// FINAL key set is duplicate-free, whatever the order of processing
 		flt := bson.D{{Key: g.uniqField, Value: bson.D{{Key: pick(r, []string{"$gte", "$lte"}), Value: int32(r.intn(4) + 1)}}}}
